@@ -386,7 +386,10 @@ pub fn flex_layout(
             let mut child_layout = child_layout_opt.expect("not all flex children are allocated");
             if let Some(flex) = child.flex {
                 // compute available flex
-                let child_major_max = ((major_remain as f64) * flex / flex_total).round() as usize;
+                // share is never bigger than the space that is left: rounding errors in
+                // `flex_total` (up to division by zero) must not leak into the constraint
+                let child_major_max = (((major_remain as f64) * flex / flex_total).round() as usize)
+                    .min(major_remain);
                 flex_total -= flex;
                 if child_major_max != 0 {
                     // layout child
